@@ -1,0 +1,60 @@
+//! Verification hooks, compiled only with `--cfg redirectionio_verif`.
+//!
+//! Everything here is thread-local and empty by default: with nothing
+//! installed the library behaves exactly as without the flag.
+
+use chrono::{DateTime, Utc};
+use std::cell::{Cell, RefCell};
+use std::collections::VecDeque;
+
+thread_local! {
+    static CLOCK: RefCell<Option<DateTime<Utc>>> = const { RefCell::new(None) };
+    static DRAWS: RefCell<VecDeque<u32>> = const { RefCell::new(VecDeque::new()) };
+    static DRAWS_CONSUMED: Cell<u64> = const { Cell::new(0) };
+    static CLOCK_READS: Cell<u64> = const { Cell::new(0) };
+}
+
+/// Install (or remove) the simulated wall clock of the current thread.
+pub fn set_clock(now: Option<DateTime<Utc>>) {
+    CLOCK.with(|c| *c.borrow_mut() = now);
+}
+
+/// The simulated clock when one is installed, the real one otherwise.
+pub fn now() -> DateTime<Utc> {
+    CLOCK_READS.with(|c| c.set(c.get() + 1));
+    CLOCK.with(|c| *c.borrow()).unwrap_or_else(Utc::now)
+}
+
+pub fn clock_reads() -> u64 {
+    CLOCK_READS.with(|c| c.get())
+}
+
+/// Queue values that the next calls of `rand::random::<u32>()` made by the
+/// library on this thread will return.
+pub fn push_draws(draws: &[u32]) {
+    DRAWS.with(|d| d.borrow_mut().extend(draws.iter().copied()));
+}
+
+pub fn clear_draws() {
+    DRAWS.with(|d| d.borrow_mut().clear());
+}
+
+pub fn draws_consumed() -> u64 {
+    DRAWS_CONSUMED.with(|c| c.get())
+}
+
+/// Shadows the `rand` crate at the sampling call site.
+pub mod rand {
+    pub fn random<T: From<u32>>() -> T {
+        let queued = super::DRAWS.with(|d| d.borrow_mut().pop_front());
+
+        match queued {
+            Some(value) => {
+                super::DRAWS_CONSUMED.with(|c| c.set(c.get() + 1));
+
+                T::from(value)
+            }
+            None => T::from(::rand::random::<u32>()),
+        }
+    }
+}
